@@ -3,7 +3,9 @@
 (* The interpreter's standard traceback text (C16), at the level of LINE   *)
 (* KINDS.  A traceback is [frames, etype, msg]; a frame is                 *)
 (* [path, lineno, func, src] with src 0 = no source line, 1 = source line, *)
-(* 2 = source line followed by a position-marker line.  msg is a sequence  *)
+(* 2 = source line followed by a position-marker line, and rep = N > 0 when *)
+(* the line "[Previous line repeated N more times]" follows the frame      *)
+(* (what the interpreter prints for a recursion).  msg is a sequence       *)
 (* of message lines (<<>> = no message).                                   *)
 (* Render: the lines the interpreter prints.  Parse: the line-oriented     *)
 (* state machine the property describes (header, then per frame: frame     *)
@@ -19,6 +21,7 @@ RenderFrames(fs) == IF fs = <<>> THEN <<>>
          <<Line("frame", f.path, f.lineno, f.func)>>
          \o (IF f.src >= 1 THEN <<Line("src", f.path, f.lineno, 0)>> ELSE <<>>)
          \o (IF f.src = 2 THEN <<Line("marker", 0, 0, 0)>> ELSE <<>>)
+         \o (IF f.rep > 0 THEN <<Line("rep", f.rep, 0, 0)>> ELSE <<>>)
          \o RenderFrames(Tail(fs))
 (* exception text: "Type" or "Type: first message line", further message lines follow unindented *)
 RenderExc(etype, msg) == IF msg = <<>> THEN <<Line("exc", etype, 0, 0)>>
@@ -31,8 +34,11 @@ ParseFrames(ls, i, acc) ==
     ELSE LET hasSrc == i + 1 <= Len(ls) /\ ls[i + 1].k = "src"
              j == IF hasSrc THEN i + 2 ELSE i + 1
              hasMark == hasSrc /\ j <= Len(ls) /\ ls[j].k = "marker"
-         IN ParseFrames(ls, IF hasMark THEN j + 1 ELSE j,
-                        Append(acc, [path |-> ls[i].a, lineno |-> ls[i].b, func |-> ls[i].c, src |-> IF hasMark THEN 2 ELSE IF hasSrc THEN 1 ELSE 0]))
+             j2 == IF hasMark THEN j + 1 ELSE j
+             hasRep == j2 <= Len(ls) /\ ls[j2].k = "rep"
+         IN ParseFrames(ls, IF hasRep THEN j2 + 1 ELSE j2,
+                        Append(acc, [path |-> ls[i].a, lineno |-> ls[i].b, func |-> ls[i].c, src |-> IF hasMark THEN 2 ELSE IF hasSrc THEN 1 ELSE 0,
+                                     rep |-> IF hasRep THEN ls[j2].a ELSE 0]))
 Parse(ls) == LET p == ParseFrames(ls, 2, <<>>)
                  e == ls[p.next]
                  rest == SubSeq(ls, p.next + 1, Len(ls)) IN
